@@ -4,7 +4,7 @@
  * connection opened with uv_tcp_open ("tcp").  The peer end is a plain
  * descriptor written by the harness (counter pattern, scripted chunk sizes,
  * optionally a descriptor attached with SCM_RIGHTS), half-closed or closed.
- * Link with -Wl,--wrap=read,--wrap=recvmsg,--wrap=epoll_pwait.
+ * Link with -Wl,--wrap=read,--wrap=recvmsg,--wrap=epoll_pwait,--wrap=write,--wrap=writev,--wrap=sendmsg.
  *
  * read/recvmsg on the stream's descriptor take the next scripted token:
  *   n<k>  perform the real call with at most k bytes offered (real data, truncated)
@@ -19,6 +19,10 @@
  *         w<n>   peer writes n bytes     g<n> peer sends n bytes + one descriptor (SCM_RIGHTS)
  *         h      peer shutdown(SHUT_WR)  q    peer close
  *         u<n>   n bytes are put into the peer's receive queue (so that q resets the connection)
+ *         X<e>   a 5-byte uv_write from our side; e != 0: its write(2) fails with errno e
+ *         d      peer shutdown(SHUT_RD): our writes really fail with EPIPE (AF_UNIX)
+ *         Z      drain: rest of the script dropped, uv_run(NOWAIT) until two idle iterations (max 200);
+ *                prints Z<iterations> E<bytes still readable>,<ended idle>
  *         V      uv_write of 16 MiB that the peer never reads: POLLOUT stays requested, the handle is
  *                polled also while not reading; q then resets (unread data at the peer)
  *   beh:  S<tok> T C   inside the k-th read callback
@@ -27,7 +31,7 @@
  *   msghdr log: for every recvmsg on the stream, as offered by libuv: msg_controllen,
  *   msg_control != NULL, msg_iovlen, msg_flags on entry, and MSG_CTRUNC on return
  *   trace tokens (ocaml/drv_c06.ml prints the same, except the upper-case
- *   harness-only tokens W<total> G<total> H Q U K M B<n> V<ret> Y<status> O<0/1> D<n>;
+ *   harness-only tokens W<total> G<total> H Q U K M B<n> V<ret> N<ret> Y<status> O<0/1> D<n> Z<k> E<n>,<idle>;
  *   D = uv_pipe_pending_count() after the call (ipc),
  *   O = POLLOUT requested when epoll_pwait was called, V = uv_write returned, Y = write_cb status,
  *   G = that write carried a descriptor, B<n> = n bytes were still readable at this UV_EOF):
@@ -71,7 +75,7 @@ static unsigned long long peer_written, kpos, delivered;
 /* the one buffer that may be outstanding */
 static struct { int live; int id; char* base; size_t len; } out;
 /* override of the next poll */
-static int ov_kind; static unsigned ov_mask;
+static int ov_kind; static unsigned ov_mask; static unsigned last_given;
 
 static void do_ops(char* ops, int in_cb);
 
@@ -144,7 +148,7 @@ int __wrap_epoll_pwait(int epfd, struct epoll_event* ev, int max, int timeout, c
   n = __real_epoll_pwait(epfd, ev, max, 0, ss);
   if (n < 0) n = 0;
   if (!g_quiet) printf("O%d ", (!g_closing && (h.stream.io_watcher.pevents & POLLOUT)) ? 1 : 0);
-  if (g_closing) { if (!g_quiet) printf("P0 "); return n; }
+  if (g_closing) { last_given = 0; if (!g_quiet) printf("P0 "); return n; }
   for (i = 0; i < n; i++) if (ev[i].data.fd == g_fd) { at = i; real = ev[i].events; }
   given = real;
   if (ov_kind == '=') given = ov_mask;
@@ -158,8 +162,27 @@ int __wrap_epoll_pwait(int epfd, struct epoll_event* ev, int max, int timeout, c
     else if (n < max) { memset(&ev[n], 0, sizeof ev[n]); ev[n].events = given; ev[n].data.fd = g_fd; n++; }
     else given = real;
   }
+  last_given = given;
   if (!g_quiet) printf("P%u ", given);
   return n;
+}
+
+/* our own writes: X<errno> makes the next write/writev/sendmsg on the stream fail with errno */
+ssize_t __real_write(int, const void*, size_t);
+ssize_t __real_writev(int, const struct iovec*, int);
+ssize_t __real_sendmsg(int, const struct msghdr*, int);
+static int next_write_err;
+ssize_t __wrap_write(int fd, const void* b, size_t n) {
+  if (g_active && fd == g_fd && next_write_err) { errno = next_write_err; next_write_err = 0; return -1; }
+  return __real_write(fd, b, n);
+}
+ssize_t __wrap_writev(int fd, const struct iovec* v, int c) {
+  if (g_active && fd == g_fd && next_write_err) { errno = next_write_err; next_write_err = 0; return -1; }
+  return __real_writev(fd, v, c);
+}
+ssize_t __wrap_sendmsg(int fd, const struct msghdr* m, int fl) {
+  if (g_active && fd == g_fd && next_write_err) { errno = next_write_err; next_write_err = 0; return -1; }
+  return __real_sendmsg(fd, m, fl);
 }
 
 /* ---- callbacks ---- */
@@ -273,6 +296,38 @@ static void do_ops(char* ops, int in_cb) {
       if (in_cb) { model_op = 0; break; }
       ov_kind = tok[1]; ov_mask = ov_kind ? (unsigned) strtoul(tok + 2, NULL, 10) : 0;
       uv_run(&loop, UV_RUN_NOWAIT);
+      break;
+    case 'X':          /* a small uv_write from our side; X<errno>: its write(2) fails with errno */
+      if (in_cb) { model_op = 0; break; }
+      if (!g_closing && nwr < NWR) {
+        static char small[5] = "write"; uv_buf_t b = uv_buf_init(small, 5);
+        next_write_err = atoi(tok + 1);
+        r = uv_write(&wreqs[nwr], &h.stream, &b, 1, write_cb);
+        next_write_err = 0;
+        if (r == 0) nwr++;
+        printf("N%d ", r);
+      }
+      break;
+    case 'd': model_op = 0; if (!in_cb && g_peer >= 0) shutdown(g_peer, SHUT_RD); break;
+    case 'Z': model_op = 0;       /* drain: script and overrides off, run until idle twice */
+      if (!in_cb) {
+        int k, idle = 0; long left = 0;
+        script_pos = nscript;
+        for (k = 0; k < 200 && idle < 2 && !g_closing; k++) {
+          int before = cbn + alloc_n;
+          ov_kind = 0; last_given = 0;
+          uv_run(&loop, UV_RUN_NOWAIT);
+          printf("f%d%d%d ", uv_is_readable(&h.stream), uv_is_active(&h.handle), uv_is_closing(&h.handle));
+          if (g_ipc && !g_closing) printf("D%d ", uv_pipe_pending_count(&h.pipe));
+          idle = (last_given == 0 && cbn + alloc_n == before) ? idle + 1 : 0;
+        }
+        if (!g_closing) {
+          static char pk[65536];
+          left = recv(g_fd, pk, sizeof pk, MSG_PEEK | MSG_DONTWAIT);
+          if (left < 0) left = 0;
+        }
+        printf("Z%d E%ld,%d ", k, left, idle >= 2);
+      }
       break;
     case 'V': model_op = 0;
       if (!in_cb && !g_closing && nwr < NWR) {
